@@ -165,6 +165,14 @@ def handle (mode : String) (line : String) : String :=
         if ga == "2/2" && gb == "1/1" then "ok"
         else s!"violates peers that reach a wildcard-bound datagram server over different local addresses: peer A got {ga} of its responses, peer B {gb} (a response must come from the address its request was sent to, whatever other peers send meanwhile)"
       | _ => "violates unparsable-observation"
+    | "serve" :: "udporder" :: _ =>
+      match words obs with
+      | "order" :: "handled" :: frac :: "ascending" :: [] =>
+        -- (a datagram lost by the socket is not the library's: what was handled must be in arrival order, and something must)
+        if frac.startsWith "0/" then "violates nothing of a peer's burst was handled" else "ok"
+      | "order" :: "handled" :: _ :: "broken" :: rest =>
+        s!"violates messages of one peer were handled out of arrival order ({" ".intercalate rest})"
+      | _ => "violates unparsable-observation"
     | "serve" :: "udpbacklog" :: _ =>
       match words obs with
       | ["b", "got", g, "waited", w, "slowhandled", _, "serving", sv] =>
